@@ -45,7 +45,7 @@ MANIFEST = dict(
               "trace-equivalence with the extracted program + live race / crash-injection tests")
 
 FINDING_KEY = "F-C15-unlink: clean stop between another start's open(lock) and F_SETLK"
-TRACE = "trace=%file,bind,listen,fcntl,close,unlink,unlinkat,openat,socket,rename"
+TRACE = "trace=%file,bind,listen,fcntl,close,unlink,unlinkat,openat,socket,rename,write"
 INJECT_SET = "openat,unlink,bind,listen,fcntl,close,socket"
 PHASE = {"up": "start-up", "down": "shutdown", "serve": "service"}
 
@@ -275,7 +275,7 @@ def abstract_trace(text, D, main_pid=None):
     Returns (tokens, details) for the main pid (the first pid seen unless given)."""
     rev = {p: n for n, p in D.names().items()}
     toks, det = [], {}
-    lockfd = sockfd = None
+    lockfd = sockfd = pidfd = seedfd = None
     for line in text.splitlines():
         m = re.match(r"^(\d+)\s+(.*)$", line)
         if not m:
@@ -310,7 +310,9 @@ def abstract_trace(text, D, main_pid=None):
             creat = "O_CREAT" in args or sc == "creat"
             wr = "O_WRONLY" in args or "O_RDWR" in args
             if not creat and not wr:
-                continue                      # read-only open of a name: not a step
+                if n == "seed":               # the reads of start-up (ENOENT included) are the one step read_seed
+                    toks.append("read_seed")
+                continue                      # any other read-only open of a name: not a step
             if n == "lock":
                 toks.append("open_lock" if ok else "open_lock!")
                 mm = re.search(r",\s*(0[0-7]*)\)?$", args)
@@ -319,9 +321,11 @@ def abstract_trace(text, D, main_pid=None):
                 if ok:
                     lockfd = int(ret)
             elif n == "pid":
-                toks.append("write_pid" if ok else "write_pid!")
+                toks.append("open_pid" if ok else "open_pid!")
+                pidfd = int(ret) if ok else None
             elif n == "seed":
-                toks.append("write_seed" if ok else "write_seed!")
+                toks.append("open_seed" if ok else "open_seed!")
+                seedfd = int(ret) if ok else None
             else:
                 toks.append("other:%s:%s" % (sc, n))
         elif sc in ("unlink", "unlinkat", "rmdir"):
@@ -355,6 +359,13 @@ def abstract_trace(text, D, main_pid=None):
                     pass
                 else:
                     toks.append("other:fcntl:lock")
+        elif sc == "write":
+            if fd is not None and fd == pidfd:
+                toks.append("write_pid" if ok else "write_pid!")
+                pidfd = None                  # one step, however many write() calls stdio makes
+            elif fd is not None and fd == seedfd:
+                toks.append("write_seed" if ok else "write_seed!")
+                seedfd = None
         elif sc == "close":
             if fd is not None and fd == lockfd:
                 toks.append("close_lock")
@@ -362,6 +373,10 @@ def abstract_trace(text, D, main_pid=None):
             elif fd is not None and fd == sockfd:
                 toks.append("close_sock")
                 sockfd = None
+            elif fd is not None and fd == pidfd:
+                pidfd = None
+            elif fd is not None and fd == seedfd:
+                seedfd = None
         elif sc in READONLY:
             # look-ups of the lock *path* after the lock file was opened are part of the protocol (a
             # re-verification of the name); the unchanged code has none
@@ -547,7 +562,8 @@ def scenario_race(ctx, exe, spec):
 
 
 def scenario_loser_trace(ctx, exe, tag):
-    """a start against a serving daemon, under strace: its abstract trace must be open, fstat, setlk(fail), exit!=0"""
+    """a start against a serving daemon, under strace: its abstract trace must be read_seed, open, fstat, setlk(fail),
+    exit!=0"""
     D = Dir(ctx, tag)
     try:
         a = popen(D, D.argv(exe))
@@ -717,8 +733,9 @@ def tree_files(base):
 
 def raw_trace(text, base, ignore, main_pid=None):
     """strace -f output -> the steps of the main pid on names under directory base, WITH THE NAMES AS PASSED TO THE
-    KERNEL: open:<p> (creating/writing opens), fstat:<p> setlk:<p> close:<p> (on the descriptor that gets the
-    F_SETLK), unlink:<p>, bind:<p>, listen, close_sock, serve, exit / exit!N / killed."""
+    KERNEL: read:<p> (read-only opens), open:<p> (creating/writing opens), write:<p> (first write to such a descriptor),
+    fstat:<p> setlk:<p> close:<p> (on the descriptor that gets the F_SETLK), unlink:<p>, bind:<p>, listen, close_sock,
+    serve, exit / exit!N / killed."""
     lines = []
     for line in text.splitlines():
         m = re.match(r"^(\d+)\s+(.*)$", line)
@@ -747,6 +764,7 @@ def raw_trace(text, base, ignore, main_pid=None):
     sockfd = None
     under = lambda p: p.startswith(base + "/") and p not in ignore
     lock_fds = set()
+    written = set()
     for li, rest in enumerate(lines):
         if rest.startswith("--- SIGTERM") or rest.startswith("--- SIGINT"):
             toks.append("serve")
@@ -769,11 +787,19 @@ def raw_trace(text, base, ignore, main_pid=None):
         fdm = re.match(r"(\d+)[,)]?", args)
         fd = int(fdm.group(1)) if fdm else None
         if sc in ("openat", "open", "creat"):
-            if not paths or not ("O_CREAT" in args or sc == "creat" or "O_WRONLY" in args or "O_RDWR" in args):
+            if not paths:
+                continue
+            if not ("O_CREAT" in args or sc == "creat" or "O_WRONLY" in args or "O_RDWR" in args):
+                toks.append("read:" + paths[0])
                 continue
             toks.append("open:" + paths[0] + ("" if ok else "!"))
             if ok:
                 fdpath[int(ret)] = paths[0]
+                written.discard(int(ret))
+        elif sc == "write":
+            if fd in fdpath and fd not in lock_fds and fd not in written:
+                toks.append("write:" + fdpath[fd] + ("" if ok else "!"))
+                written.add(fd)
         elif sc in ("unlink", "unlinkat", "rmdir"):
             toks += ["unlink:" + p for p in paths]
         elif sc in ("rename", "renameat", "renameat2", "link", "linkat", "symlink", "symlinkat", "mknod", "mknodat"):
@@ -827,8 +853,12 @@ def model_path_program(oracle, D):
             toks.append("close:" + lockname)
         elif k == "unlink":
             toks.append("unlink:" + un(v))
-        elif k in ("write_pid", "write_seed"):
+        elif k == "read_seed":
+            toks.append("read:" + un(v))
+        elif k in ("open_pid", "open_seed"):
             toks.append("open:" + un(v))
+        elif k in ("write_pid", "write_seed"):
+            toks.append("write:" + un(v))
         elif k == "bind":
             r, _, nm = v.partition(":")
             bindname = un(nm)
@@ -1184,7 +1214,9 @@ class RefSim:
             return
         tok = self.prog[pr["pc"]]
         fail = False
-        if tok == "open_lock":
+        if tok == "read_seed":
+            pass                              # returns on a missing, an empty and a complete seed file alike
+        elif tok == "open_lock":
             pr["lockfd"] = self.names["lock"] if self.names["lock"] is not None else self.alloc("lock")
         elif tok == "fstat_lock":
             fail = pr["lockfd"] is None
@@ -1206,9 +1238,14 @@ class RefSim:
                 fail = True
             else:
                 self.listener[pr["sockfd"]] = q
-        elif tok == "write_pid":
-            f = self.names["pid"] if self.names["pid"] is not None else self.alloc("pid")
-            self.content[f] = q
+        elif tok in ("open_pid", "open_seed"):
+            n = tok[5:]
+            f = self.names[n] if self.names[n] is not None else self.alloc(n)
+            self.content.pop(f, None)         # O_TRUNC / new: empty
+        elif tok in ("write_pid", "write_seed"):
+            f = self.names[tok[6:]]
+            if f is not None:
+                self.content[f] = q
         elif tok == "close_sock":
             if pr["sockfd"] is not None and self.listener.get(pr["sockfd"]) == q:
                 del self.listener[pr["sockfd"]]
@@ -1217,9 +1254,6 @@ class RefSim:
             if pr["lockfd"] is not None and self.lockown.get(pr["lockfd"]) == q:
                 del self.lockown[pr["lockfd"]]
             pr["lockfd"] = None
-        elif tok == "write_seed":
-            if self.names["seed"] is None:
-                self.alloc("seed")
         elif tok == "exit":
             return self.die(q, 3)
         else:
@@ -1241,8 +1275,9 @@ class RefSim:
         procs = " ".join("%s/%d/%d" % (self.ST[pr["st"]], pr["pc"], self.serving(q)) for q, pr in enumerate(self.p))
         nm = self.names
         names = " ".join("%s=%s" % (n, o(nm[n])) for n in ("lock", "sock", "pid", "seed"))
-        return "R %s | %s | pidfile=%s listener=%s lockholder=%s" % (
-            procs, names, o(self.content.get(nm["pid"])), o(self.listener.get(nm["sock"])), o(self.lockown.get(nm["lock"])))
+        return "R %s | %s | pidfile=%s listener=%s lockholder=%s seedby=%s" % (
+            procs, names, o(self.content.get(nm["pid"])), o(self.listener.get(nm["sock"])), o(self.lockown.get(nm["lock"])),
+            o(self.content.get(nm["seed"])))
 
 
 def model_schedules(ctx, oracle, prog, n):
@@ -1252,7 +1287,7 @@ def model_schedules(ctx, oracle, prog, n):
     rng = ctx.rng
     lines, want, bad = [], [], []
     stats = {"no_term": 0, "with_term": 0, "two_past_setlk_with_term": 0, "complete_races_one_survivor": 0}
-    setlk_pc = prog.index("setlk") + 1 if "setlk" in prog else 3
+    setlk_pc = prog.index("setlk") + 1 if "setlk" in prog else 4
     for it in range(n):
         k = rng.randrange(2, 9)
         with_term = (it % 3 == 2)
@@ -1405,8 +1440,8 @@ def _run_live(ctx, exe, oracle, concrete, corr):
         else:
             ctx.count(("loser", tuple(ltoks)))
             ctx.sample({"loser_abstract": " ".join(ltoks)})
-            want = ["open_lock", "fstat_lock", "setlk!"]
-            if ltoks[:3] != want or len(ltoks) != 4 or not ltoks[3].startswith("exit!"):
+            want = ["read_seed", "open_lock", "fstat_lock", "setlk!"]
+            if ltoks[:4] != want or len(ltoks) != 5 or not ltoks[4].startswith("exit!"):
                 corr.append(("a start that finds the lock taken does [%s]; the model's loser does [%s exit!]"
                              % (" ".join(ltoks), " ".join(want)),
                              {"obligation": "correspondence loser trace", "scenario": "trace", "daemon": ltoks}))
